@@ -3,6 +3,7 @@ package mon
 import (
 	"encoding/json"
 	"fmt"
+	"math/big"
 	"strings"
 
 	"github.com/woodsbury/decimal128"
@@ -409,6 +410,7 @@ func init() {
 			{Name: "random", N: func(c *Ctx) int { return tierN(c, 60000, 1500000) }, Run: c05Random},
 			{Name: "ladder", N: func(c *Ctx) int { return tierN(c, 400, 20000) }, Run: c05Ladder},
 			{Name: "long-sums", N: func(c *Ctx) int { return tierN(c, 600, 40000) }, Run: c05LongSums},
+			{Name: "long-number-texts", N: c05LongTextsN, Run: c05LongTexts, Exhaustive: true},
 		},
 	})
 }
@@ -500,6 +502,100 @@ func c05LongSums(c *Ctx, idx int) {
 			if n < 12 {
 				c.Sample(map[string]any{"expr": text, "xs": strings.Join(els, ","), "route": route, "model": m.String()})
 			}
+		}
+	}
+}
+
+// c05LongTexts: one number whose *text* is long - 32766..131072 bytes - because of padding that
+// does not change its value (leading zeros of the exponent, trailing zeros of the fraction, zeros
+// after the point), or because the number really is that large or small.  Padded texts denote small
+// exact numbers and must compute exactly (direct oracle: the value is known by construction).  A
+// text that denotes a number beyond the decimal range may be refused (error) or, when tiny, underflow
+// to zero - but it must never turn into some unrelated finite number.
+var c05TextLens = []int{6200, 32768, 40000, 65536, 70000}
+
+type c05LongKind struct {
+	name  string
+	build func(n int) string
+	// value: the exact value as a short text when in range ("" = out of range), huge: beyond the range upwards
+	value string
+	huge  bool
+}
+
+var c05LongKinds = []c05LongKind{
+	{"1. followed by n zeros", func(n int) string { return "1." + strings.Repeat("0", n) }, "1", false},
+	{"5e-(n zeros)1", func(n int) string { return "5e-" + strings.Repeat("0", n) + "1" }, "0.5", false},
+	{"25e+(n zeros)2", func(n int) string { return "25e+" + strings.Repeat("0", n) + "2" }, "2500", false},
+	{"0.(n zeros)1e(n+2)", func(n int) string { return "0." + strings.Repeat("0", n) + "1e" + fmt.Sprint(n+2) }, "10", false},
+	{"1 followed by n zeros, e-n", func(n int) string { return "1" + strings.Repeat("0", n) + "e-" + fmt.Sprint(n) }, "1", false},
+	{"1234.5(n zeros)", func(n int) string { return "1234.5" + strings.Repeat("0", n) }, "1234.5", false},
+	{"-0.(n zeros)", func(n int) string { return "-0." + strings.Repeat("0", n) }, "0", false},
+	{"1 followed by n zeros", func(n int) string { return "1" + strings.Repeat("0", n) }, "", true},
+	{"n nines", func(n int) string { return strings.Repeat("9", n) }, "", true},
+	{"0.(n zeros)1", func(n int) string { return "0." + strings.Repeat("0", n) + "1" }, "", false},
+	{"-1 followed by n zeros .5", func(n int) string { return "-1" + strings.Repeat("0", n) + ".5" }, "", true},
+}
+
+func c05LongTextsN(c *Ctx) int { return len(c05TextLens) * len(c05LongKinds) }
+
+func c05LongTexts(c *Ctx, idx int) {
+	n := c05TextLens[idx%len(c05TextLens)]
+	k := c05LongKinds[idx/len(c05TextLens)]
+	t := k.build(n)
+	desc := strings.ReplaceAll(strings.ReplaceAll(k.name, "(n+2)", fmt.Sprint(n+2)), "n", fmt.Sprint(n))
+	if k.name == "n nines" {
+		desc = fmt.Sprint(n) + " nines"
+	}
+	feats := map[string]string{"stream": "long-number-texts", "number_text": desc}
+	doc := map[string]any{"a": json.Number(t), "s": t}
+	if k.value != "" {
+		v := k.value
+		for _, x := range []struct{ expr, want string }{
+			{"a == `" + v + "`", "true"}, {"a + `0` == `" + v + "`", "true"}, {"[a - `" + v + "`, a * `2` - `" + v + "` - `" + v + "`]", "[0,0]"}, {"a < `" + v + "` || a > `" + v + "`", "false"}, {"to_number(s) == `" + v + "`", "true"},
+			{"sum([a, a]) == `" + v + "` * `2`", "true"}, {"abs(a) == abs(`" + v + "`)", "true"}, {"contains([a], `" + v + "`)", "true"}, {"type(a)", `"number"`}, {"max([a, `-1`]) == `" + v + "`", "true"},
+		} {
+			l := c.LibSearch(x.expr, doc)
+			if got := strings.ReplaceAll(ShowOut(l), " ", ""); l.Panic != nil || l.Err != nil || got != x.want {
+				c.Report(Violation{Rule: "C05/long-number-text", Expr: x.expr, Data: "a = json.Number(" + desc + "), s = the same text as a string", Got: clipS(ShowOut(l), 200), Want: x.want + " (the text denotes exactly " + v + ")", Features: feats})
+			}
+			c.Nontrivial(x.expr, desc)
+		}
+		if len(t) < 70000 {
+			l := c.LibSearch("`"+t+"` == `"+v+"`", nil)
+			if got := ShowOut(l); l.Panic != nil || l.Err != nil || got != "true" {
+				c.Report(Violation{Rule: "C05/long-number-text", Expr: "`<" + desc + ">` == `" + v + "`", Got: clipS(got, 200), Want: "true", Features: feats})
+			}
+		}
+		return
+	}
+	// beyond the range: an error, or (tiny) zero - never an unrelated finite number
+	for _, expr := range []string{"a + `0`", "to_number(s)", "a * `1`", "[a][0] - `0`"} {
+		l := c.LibSearch(expr, doc)
+		c.Nontrivial(expr, desc)
+		if l.Panic != nil || l.Err != nil || l.Res == nil {
+			continue
+		}
+		num, isNum := l.M.(ref.Num)
+		bad := !isNum
+		if isNum {
+			abs := new(big.Rat).Abs(num.R)
+			if k.huge {
+				bad = abs.Cmp(new(big.Rat).SetFrac(new(big.Int).Exp(big.NewInt(10), big.NewInt(6100), nil), big.NewInt(1))) < 0
+			} else {
+				bad = abs.Sign() != 0 && abs.Cmp(new(big.Rat).SetFrac(big.NewInt(1), new(big.Int).Exp(big.NewInt(10), big.NewInt(6100), nil))) > 0
+			}
+		}
+		if bad {
+			c.Report(Violation{Rule: "C05/long-number-text", Expr: expr, Data: "a = json.Number(" + desc + "), s = the same text as a string", Got: clipS(ShowOut(l), 120), Want: "an error" + map[bool]string{true: "", false: " or zero"}[k.huge] + " (the number is beyond the decimal range), never an unrelated finite number", Features: feats})
+		}
+	}
+	for _, x := range []struct{ expr, want string }{{"a == `0`", "false"}, {"a == `1`", "false"}, {"a == `0.1`", "false"}} {
+		if !k.huge && x.expr == "a == `0`" {
+			continue // a tiny number may underflow to zero
+		}
+		l := c.LibSearch(x.expr, doc)
+		if l.Panic == nil && l.Err == nil && ShowOut(l) != x.want {
+			c.Report(Violation{Rule: "C05/long-number-text", Expr: x.expr, Data: "a = json.Number(" + desc + ")", Got: ShowOut(l), Want: x.want, Features: feats})
 		}
 	}
 }
